@@ -9,7 +9,7 @@ variable {D : Type}
 
 def classInit : List (String × String) → Env D
   | [] => fun _ => none
-  | (ty, n) :: rest => (classInit rest).set n (if isVecType ty then .vec [] else .undef)
+  | (ty, n) :: rest => if isVecType ty then (classInit rest).set n (.vec []) else (classInit rest).declare n
 
 /-- Only the class-level variables survive the end of `execute()`. -/
 def keepClass (vars : List (String × String)) (σ : Env D) : Env D :=
